@@ -309,6 +309,13 @@ def fixStage2 (ss : List Stmt) (scan : Scan) (known mandatory : List Imp) (fl : 
   stageMissing fl st1 scan known >>= fun st2 =>
   stageMandatory fl st2 mandatory
 
+/-- `ImportSet.conflicting_imports` is non-empty: two different imports share a
+    local name other than `*`; `pretty_print` then raises ConflictingImportsError. -/
+def setConflicts (s : List Imp) : Bool :=
+  s.any fun i => !isStar i && s.any fun j => decide (j ≠ i) && j.importAs = i.importAs
+
+def hasConflict (bs : List Block) : Bool := bs.any fun b => setConflicts (setOf b)
+
 /-- `reformat_import_statements` at block level: nothing but `preprocess`. -/
 def reformat (ss : List Stmt) : St := preprocess ss
 
